@@ -46,7 +46,7 @@ Tolerances and their calibration (unchanged tree, 2-3 x 10^5 points per function
   A wrong digit / coefficient moves results by >= 1e-10 relative (4.5e5 ulp).
 
 Known findings (compiled code, cannot be rebuilt here; each has a *region + symptom* signature, see
-known_findings.d/C20.json; the generator keeps producing these regions and the clauses that still hold there
+known_findings.json; the generator keeps producing these regions and the clauses that still hold there
 are still judged - a different symptom in the same region, or the same symptom elsewhere, is a VIOLATION):
   KF-C20-dfact-table / -recursion, KF-C20-csqrt-signed-zero, -csqrt-rescale, -csqrt-subnormal (DESIGN.md), and
   met while building this check: KF-C20-cplx-from-parts (Cython builds x + y*I, so an infinite/NaN imaginary
